@@ -34,9 +34,10 @@ const (
 	InLALRConflict  = "lalr_conflict"
 	InBadPattern    = "bad_pattern"
 	InEmpty         = "empty"
+	InMultiStage    = "several_stages_fail"
 )
 
-var InputClasses = []string{InAccepted, InAccepted, InAccepted, InSyntax, InSemantic, InTokenConflict, InLALRConflict, InBadPattern, InEmpty}
+var InputClasses = []string{InAccepted, InAccepted, InAccepted, InSyntax, InSemantic, InTokenConflict, InLALRConflict, InBadPattern, InEmpty, InMultiStage}
 
 // GenInput draws a small specification text of the requested class. The families are kept to a
 // handful of productions because the dependency's LALR construction is slow on larger grammars.
@@ -48,7 +49,20 @@ func GenInput(t *simrt.Tape, class string) (name string, text string) {
 	numRe := []string{`/[0-9]+/`, `$NUMBER`, `/0|[1-9][0-9]*/`}[t.Draw(3)]
 	switch class {
 	case InAccepted:
-		switch t.Draw(11) {
+		switch t.Draw(13) {
+		case 11, 12:
+			// a pattern token every match of which is also the value of a string terminal: the strings
+			// win every accepting state, the pattern token ends up owning none (an entry without states
+			// in whatever table the generator builds), next to ordinary tokens that do own states
+			fam := [][]string{
+				{`/true|false/`, `"true"`, `"false"`},
+				{`/(x|y)/`, `"x"`, `"y"`},
+				{`/ab?/`, `"a"`, `"ab"`},
+				{`/if|else|end/`, `"if"`, `"else"`, `"end"`},
+				{`/<=?/`, `"<"`, `"<="`},
+			}[t.Draw(5)]
+			extra := []string{"NUM = /[0-9]+/;\n", "NUM = $NUMBER;\nSTR = $STRING;\n", "WS = /[ \\t]+/;\nNUM = /[0-9]+/;\n"}[t.Draw(3)]
+			fmt.Fprintf(&b, "SHADOW = %s;\nID = %s;\n%sstart = SHADOW | ID NUM | %s;\n", fam[0], []string{`/[a-z]+/`, `/[a-z][a-z0-9]*/`}[t.Draw(2)], extra, strings.Join(fam[1:], " | "))
 		case 9, 10:
 			// a few long keywords: a token automaton with well over 64 states, yet only a handful of
 			// productions (the dependency's LALR construction is slow in the number of productions)
@@ -104,6 +118,14 @@ func GenInput(t *simrt.Tape, class string) (name string, text string) {
 			"ID = /[a-z]+/;\nstart = [ ID \",\" ] ID;\n", "start = [ \"x\" \"y\" ] [ \"x\" \"z\" ] \"x\";\n", "start = ( \"a\" \"b\" | \"a\" ) \"b\" [ \"b\" \"c\" ] \"b\";\n"}[t.Draw(5)])
 	case InBadPattern:
 		b.WriteString([]string{"TK = /[z-a]/;\nstart = TK;\n", "TK = /a{3,1}/;\nstart = TK;\n", "TK = /(/;\nstart = TK;\n"}[t.Draw(3)])
+	case InMultiStage:
+		// accepted by the parser, rejected by more than one later stage at once (the scanner automaton and
+		// the parsing table are built by different stages of the generator)
+		b.WriteString([]string{
+			"ID = /[a-z/;\nstart = start \"+\" start | ID;\n",
+			"AA = /[a-z]+/;\nBB = /[a-c]+/;\nstart = start AA start | BB;\n",
+			"AA = /a{3,1}/;\nBB = /ab*/;\nCC = /a+/;\nstart = AA | BB | CC | start start;\n",
+		}[t.Draw(3)])
 	case InEmpty:
 		return name, ""
 	}
